@@ -1038,8 +1038,18 @@ def _build_pure_modules():
     def dc_asdict(obj):
         return {k_: obj.fields.get(k_) for k_ in obj.dcfields}
 
+    def _dc_decorator(*a, **k):
+        if a and not k:
+            return a[0]
+        return lambda c_: c_
+    _dc_decorator.stands_for = 'dataclasses.dataclass'
+
+    def _dc_field(**k):
+        return k.get('default', None)
+    _dc_field.stands_for = 'dataclasses.field'
+
     class _Dataclasses(_PureModule):
-        _names = {'dataclass': lambda *a, **k: (a[0] if a and not k else (lambda c_: c_)), 'field': lambda **k: k.get('default', None),
+        _names = {'dataclass': _dc_decorator, 'field': _dc_field,
                   'fields': dc_fields, 'replace': dc_replace, 'astuple': dc_astuple, 'asdict': dc_asdict}
 
     class _Marker(PyStub):
@@ -1408,6 +1418,8 @@ def ev(n, env, funcs=None):
         txt = _unparse(n)
         if txt in env:
             return env[txt]
+        if txt.startswith('tracklib.') and _is_dotted(n) and 'tracklib' not in env and funcs and '__name__' in funcs:
+            return funcs['__name__'](n.attr)            # tracklib.Track, tracklib.core.Track ... : the object of that name in the package
         if txt in ('math.inf', 'np.inf', 'numpy.inf'):
             return float('inf')
         if txt.startswith('sys.float_info.') and hasattr(__import__('sys').float_info, n.attr):
@@ -1506,6 +1518,10 @@ def ev(n, env, funcs=None):
         fname = f.id if isinstance(f, ast.Name) else (f.attr if isinstance(f, ast.Attribute) else None)
         if fname is None:
             callee = ev(f, env, funcs)          # a callable taken from a table, returned by a call, ...
+            if isinstance(callee, Obj):
+                if '__call__' not in callee.methods:
+                    raise TypeError('%r object is not callable' % (callee.clsname or 'record'))
+                return callee.call('__call__', *_args(n, env, funcs), **_kw(n, env, funcs))
             if not callable(callee):
                 raise TypeError('%r object is not callable' % type(callee).__name__)
             return callee(*_args(n, env, funcs), **_kw(n, env, funcs))
@@ -1748,6 +1764,8 @@ def ev(n, env, funcs=None):
                     return _iter(a0.call('__reversed__'), n)
                 if '__len__' in a0.methods and '__getitem__' in a0.methods:
                     return (a0.call('__getitem__', i_) for i_ in range(a0.call('__len__') - 1, -1, -1))
+            if isinstance(a0, PyStub) and hasattr(type(a0), '__reversed__'):
+                return a0.__reversed__()
             if isinstance(a0, PyStub) and hasattr(a0, '__len__') and hasattr(a0, '__getitem__'):
                 return iter([a0[i_] for i_ in range(len(a0) - 1, -1, -1)])
             raise TypeError('%r object is not reversible' % type(a0).__name__)
@@ -2454,24 +2472,90 @@ def run_block(stmts, env, funcs=None, limit=10000):
 
 
 class _LocalClass(PyStub):
-    """a class defined inside a function (no bases, or object): its instances are records whose methods see the enclosing frame"""
+    """a class defined inside a function (no bases, object, or other classes defined in the same function; plain or a dataclass): its
+    instances are records whose methods see the enclosing frame"""
 
     def __init__(self, node, env, funcs):
-        bases = [ast.unparse(b) for b in node.bases]
-        if [b for b in bases if b != 'object'] or node.keywords or _other_decorators(node):
-            raise Unsupported('local class %s with bases / metaclass / decorators' % node.name)
+        bases = []
+        for b in node.bases:
+            if ast.unparse(b) == 'object':
+                continue
+            try:
+                v = ev(b, env, funcs)
+            except Unsupported:
+                v = None
+            if not isinstance(v, _LocalClass):
+                raise Unsupported('local class %s with base %s' % (node.name, ast.unparse(b)))
+            bases.append(v)
+        if node.keywords:
+            raise Unsupported('local class %s with a metaclass / class keywords' % node.name)
+        dcopts = None
+        for d in _other_decorators(node):
+            try:
+                v = ev(d.func if isinstance(d, ast.Call) else d, env, funcs)
+            except Unsupported:
+                v = None
+            if getattr(v, 'stands_for', None) != 'dataclasses.dataclass':
+                raise Unsupported('local class %s with decorator %s' % (node.name, ast.unparse(d)))
+            dcopts = {'eq': True, 'frozen': False, 'order': False, 'init': True, 'repr': True}
+            if isinstance(d, ast.Call):
+                for kw in d.keywords:
+                    if kw.arg in dcopts and isinstance(kw.value, ast.Constant):
+                        dcopts[kw.arg] = bool(kw.value.value)
+                    else:
+                        raise Unsupported('dataclass option %s of local class %s' % (kw.arg, node.name))
         object.__setattr__(self, '_node', node)
         object.__setattr__(self, '_env', env)
         object.__setattr__(self, '_funcs', funcs)
         object.__setattr__(self, '_qual', '<locals>.' + node.name)
         object.__setattr__(self, 'isa', ('type',))
+        object.__setattr__(self, '_bases', bases)
         methods, consts = {}, {}
+        dcfields = []
+        for b in reversed(bases):                      # (the first base wins)
+            methods.update(b._methods)
+            consts.update(b._consts)
+        for b in bases:
+            for f_ in (b._dcfields or ()):
+                if f_[0] not in [g_[0] for g_ in dcfields]:
+                    dcfields.append(f_)
+        own = {}
         for st in node.body:
             if isinstance(st, ast.FunctionDef):
-                methods[st.name] = st
+                methods[st.name] = own[st.name] = st
                 if st.name.startswith('__') and not st.name.endswith('__'):
-                    methods['_' + node.name.lstrip('_') + st.name] = st
+                    methods['_' + node.name.lstrip('_') + st.name] = own['_' + node.name.lstrip('_') + st.name] = st
             elif isinstance(st, (ast.Assign, ast.AnnAssign)) or (isinstance(st, ast.Expr) and isinstance(st.value, ast.Constant)) or isinstance(st, ast.Pass):
+                if dcopts is not None and isinstance(st, ast.AnnAssign) and isinstance(st.target, ast.Name) and 'ClassVar' not in ast.unparse(st.annotation):
+                    spec = (st.target.id, st.value is not None, None, True)          # (name, has a default, factory, in the constructor)
+                    is_field = False
+                    if isinstance(st.value, ast.Call):
+                        try:
+                            is_field = getattr(ev(st.value.func, _Scope(env), funcs), 'stands_for', None) == 'dataclasses.field'
+                        except Unsupported:
+                            is_field = False
+                    if is_field:
+                        has_default, factory, in_init = False, None, True
+                        scope = _Scope(env)
+                        dict.update(scope, consts)
+                        for kw in st.value.keywords:
+                            if kw.arg == 'default':
+                                has_default = True
+                                consts[st.target.id] = ev(kw.value, scope, funcs)
+                            elif kw.arg == 'default_factory':
+                                factory = ev(kw.value, scope, funcs)
+                            elif kw.arg == 'init' and isinstance(kw.value, ast.Constant):
+                                in_init = bool(kw.value.value)
+                            elif kw.arg in ('repr', 'compare', 'hash') and isinstance(kw.value, ast.Constant) and kw.value.value is True:
+                                pass
+                            else:
+                                raise Unsupported('field(%s=...) in local dataclass %s' % (kw.arg, node.name))
+                        if st.value.args:
+                            raise Unsupported('field(...) with positional arguments in local dataclass %s' % node.name)
+                        spec = (st.target.id, has_default, factory, in_init)
+                    dcfields = [f_ for f_ in dcfields if f_[0] != st.target.id] + [spec]
+                    if is_field:
+                        continue
                 if isinstance(st, (ast.Assign, ast.AnnAssign)):
                     scope = _Scope(env)
                     dict.update(scope, consts)
@@ -2479,8 +2563,22 @@ class _LocalClass(PyStub):
                     consts.update({k_: v_ for k_, v_ in dict.items(scope)})
             else:
                 raise Unsupported('statement %s in the body of local class %s' % (type(st).__name__, node.name))
+        if dcopts is None and any(b._dcopts is not None for b in bases):
+            # (a plain subclass of a dataclass keeps the generated constructor and comparison of its base)
+            dcopts = [b._dcopts for b in bases if b._dcopts is not None][0]
         object.__setattr__(self, '_methods', methods)
+        object.__setattr__(self, '_own', own)
         object.__setattr__(self, '_consts', consts)
+        object.__setattr__(self, '_dcopts', dcopts)
+        object.__setattr__(self, '_dcfields', dcfields if dcopts is not None else None)
+
+    def _mro(self):
+        out = [(self._node.name, dict(self._own))]
+        for b in self._bases:
+            for entry in b._mro():
+                if entry[0] not in [e_[0] for e_ in out]:
+                    out.append(entry)
+        return out
 
     def __getattr__(self, k):
         d = object.__getattribute__(self, '__dict__')
@@ -2500,19 +2598,50 @@ class _LocalClass(PyStub):
 
     def __call__(self, *args, **kwargs):
         node = self._node
-        obj = Obj({}, dict(self._methods), self._funcs, isa={node.name})
+        mro = self._mro()
+        obj = Obj({}, dict(self._methods), self._funcs, isa={e_[0] for e_ in mro})
         obj.clsname = node.name
         obj.clsqual = self._qual
         obj.consts = self._consts
-        obj.owners = {k_: node.name for k_ in self._methods}
-        obj.mro = [(node.name, dict(self._methods))]
+        obj.owners = {}
+        for cname, ms in reversed(mro):
+            for k_ in ms:
+                obj.owners[k_] = cname
+        obj.mro = mro
         obj.classnames = set(self._consts)
         obj.closure = self._env
+        if self._dcopts is not None:
+            obj.dcfields = tuple(f_[0] for f_ in self._dcfields)
+            obj.dcopts = self._dcopts
         if '__init__' in obj.methods:
             obj.call('__init__', *args, **kwargs)
+        elif self._dcopts is not None and self._dcopts['init']:
+            names_ = [f_[0] for f_ in self._dcfields if f_[3]]
+            if len(args) > len(names_):
+                raise TypeError('%s.__init__() takes %d positional arguments but %d were given' % (node.name, len(names_) + 1, len(args) + 1))
+            given = dict(zip(names_, args))
+            for k_, v_ in kwargs.items():
+                if k_ not in names_:
+                    raise TypeError('%s.__init__() got an unexpected keyword argument %r' % (node.name, k_))
+                if k_ in given:
+                    raise TypeError('%s.__init__() got multiple values for argument %r' % (node.name, k_))
+                given[k_] = v_
+            for nm_, has_default, factory, in_init in self._dcfields:
+                if nm_ in given:
+                    obj.fields[nm_] = given[nm_]
+                elif factory is not None:
+                    obj.fields[nm_] = factory()
+                elif has_default:
+                    obj.fields[nm_] = self._consts[nm_]
+                elif in_init:
+                    raise TypeError('%s.__init__() missing required argument %r' % (node.name, nm_))
+            if '__post_init__' in obj.methods:
+                obj.call('__post_init__')
         elif args or kwargs:
             raise TypeError('%s() takes no arguments' % node.name)
         obj.constructed = True
+        if self._dcopts is not None:
+            obj.frozen = self._dcopts['frozen']
         return obj
 
 
@@ -2680,8 +2809,11 @@ def _bind(t, v, env, funcs=None):
     elif isinstance(t, ast.Attribute):
         base = ev(t.value, env, funcs)
         if isinstance(base, Obj):
-            if getattr(base, 'frozen', False) or (getattr(base, 'ntfields', None) and t.attr in base.ntfields):
-                raise AttributeError("cannot assign to field %r" % t.attr)
+            if getattr(base, 'frozen', False):
+                import dataclasses as _dc
+                raise _dc.FrozenInstanceError("cannot assign to field %r" % t.attr)
+            if getattr(base, 'ntfields', None) and t.attr in base.ntfields:
+                raise AttributeError("can't set attribute")
             if t.attr in base.methods and _is_property(base.methods[t.attr]) and t.attr not in base.fields:
                 if t.attr + '.setter' not in base.methods:
                     raise AttributeError("property %r of %r object has no setter" % (t.attr, base.clsname))
